@@ -327,6 +327,34 @@ def handle (st : DState) (line : String) : DState × String :=
           | some s' => go s' (k + 1) r
           | none => s!"stuck {k} {t} file={if s.file then 1 else 0} holders={showNats s.holders}"
     (st, go FileLock.St.init 0 ls)
+  | ["trw", progs, events] =>
+    -- replay the primitive mutex operations recorded on the real threading lock (i:aR i:aW i:rR i:rW) through `TRW.step`
+    let ps := (progs.splitOn ";").map (fun p => if p == "-" then [] else (p.splitOn ",").map (· == "1"))
+    let evs := if events == "-" then [] else events.splitOn ","
+    let pcOf (s : TRW.St) (i : Nat) : Option TRW.PC := (s.tasks[i]?).map (·.pc)
+    let show_ (s : TRW.St) : String := s!"r={if s.r then 1 else 0} w={if s.w then 1 else 0} c={s.counter}"
+    -- the steps of thread `i` that end with the recorded operation
+    let advance (s : TRW.St) (i : Nat) (op : String) : Option TRW.St :=
+      let st1 (s : TRW.St) := TRW.step s i
+      match op, pcOf s i with
+      | "aR", some .idle => (st1 s).bind st1
+      | "aR", some .rIn => (st1 s).bind st1
+      | "aW", some .idle => (st1 s).bind st1
+      | "aW", some .rHoldR => if s.counter = 0 then (st1 s).bind st1 else none
+      | "rR", some .rHoldR => if s.counter = 0 then none else (st1 s).bind st1
+      | "rR", some .rInc => st1 s
+      | "rR", some .xDec => st1 s
+      | "rW", some .xDec => if s.counter - 1 = 0 then some s else none
+      | "rW", some .wIn => st1 s
+      | _, _ => none
+    let rec goT (s : TRW.St) (k : Nat) : List String → String
+      | [] => s!"ok {show_ s}"
+      | e :: r => match e.splitOn ":" with
+        | [i, op] => match advance s i.toNat! op with
+          | some s' => goT s' (k + 1) r
+          | none => s!"stuck {k} {e} {show_ s}"
+        | _ => s!"bad-event {e}"
+    (st, goT (TRW.St.init ps) 0 evs)
   | ["ns", "reset"] => ({ st with ns := ⟨0, [], [], 1⟩ }, "ok")
   | ["ns", "create", n] => let r := Namespace.create st.ns (parseNats n); ({ st with ns := r.1 }, if r.2 == .ok then "OK" else "NO")
   | ["ns", "delete", n] => let r := Namespace.delete st.ns (parseNats n); ({ st with ns := r.1 }, if r.2 == .ok then "OK" else "NO")
